@@ -67,7 +67,8 @@ Record world := mkWorld {
 Record env := mkEnv {
   e_origin : Z; e_gasprice : Z; e_coinbase : Z; e_timestamp : Z; e_number : Z;
   e_difficulty : Z; e_gaslimit : Z; e_chainid : Z; e_basefee : Z;
-  e_newaddrs : list Z; e_hashes : list (list Z * Z); e_master_topic : Z }.
+  e_newaddrs : list Z; e_hashes : list (list Z * Z); e_master_topic : Z;
+  e_fork : Z  (* 0 Byzantium (before ETH_CONST), 1 Constantinople, 2 Istanbul, 3 Shanghai (GALACTICA) *) }.
 Record ctx := mkCtx {
   c_addr : Z; c_caller : Z; c_value : Z; c_code : list Z; c_codelen : Z; c_input : list Z; c_static : bool; c_depth : Z }.
 (* s_cc: evm.contractCreationCount — a plain field of the EVM, NOT covered by snapshots *)
@@ -174,6 +175,23 @@ Definition decode (b : Z) : option instr :=
   | 244 => Some (I_CALLI K_DELEGATE) | 245 => Some I_CREATE2 | 250 => Some (I_CALLI K_STATIC) | 253 => Some I_REVERT
   | 255 => Some I_SELFDESTRUCT
   | _ => None
+  end.
+
+(* jump_table.go: which instructions each fork's table contains (runtime.New turns ETH_CONST / ETH_IST / GALACTICA into the
+   Constantinople / Istanbul / Shanghai blocks; Homestead .. Byzantium are always active).  The gas table changes only by
+   ExtcodeHash, an instruction that exists from Constantinople on. *)
+Definition min_fork (i : instr) : Z :=
+  match i with
+  | I_ALU A_SHL | I_ALU A_SHR | I_ALU A_SAR | I_EXTCODEHASH | I_CREATE2 => 1
+  | I_CHAINID | I_SELFBALANCE => 2
+  | I_BASEFEE => 3
+  | I_PUSH n => if n =? 0 then 3 else 0
+  | _ => 0
+  end.
+Definition decode_at (fork b : Z) : option instr :=
+  match decode b with
+  | Some i => if min_fork i <=? fork then Some i else None
+  | None => None
   end.
 
 (* stack_table.go: (pop, push) *)
@@ -352,9 +370,9 @@ Definition next_mem (s : mstate) (st mem : list Z) : sres :=
 Inductive pre_res := P_halt (r : sres) | P_ok (i : instr) (s1 : mstate) (callgas : Z).
 
 (* decode, validateStack, enforceRestrictions, memorySize, gasCost + UseGas, Resize *)
-Definition pre (cx : ctx) (s : mstate) : pre_res :=
+Definition pre (E : env) (cx : ctx) (s : mstate) : pre_res :=
   let b := if s_pc s <? c_codelen cx then nthz (c_code cx) (s_pc s) else 0 in
-  match decode b with
+  match decode_at (e_fork E) b with
   | None => P_halt (fail E_invalid s)
   | Some i =>
       let st := s_stack s in
@@ -469,7 +487,8 @@ Definition exec_plain (E : env) (cx : ctx) (i : instr) (s : mstate) : sres :=
   | _ => halt O_unsupported [] s
   end.
 
-Definition precompile (a : Z) : bool := (1 <=? a) && (a <=? 9).
+(* contracts.go: Byzantium/Constantinople have precompiles 1..8, Istanbul and Shanghai 1..9 *)
+Definition precompile (E : env) (a : Z) : bool := (1 <=? a) && (a <=? (if e_fork E <? 2 then 8 else 9)).
 
 (* evm.go call / CallCode / DelegateCall / StaticCall.  d = evm.depth at the call (depth of the calling frame, 0 for the
    top-level entry).  runf is the interpreter for the callee frame.  A failing frame returns the world it was entered with
@@ -480,7 +499,7 @@ Definition do_call (runf : ctx -> mstate -> fres) (E : env)
   if 1024 <? d then mkRes (O_err E_depth) [] gas w cc
   else if (match k with K_CALL => negb (v =? 0) | K_CALLCODE => true | _ => false end) && (balance w self <? v)
   then mkRes (O_err E_balance) [] gas w cc
-  else if precompile to then mkRes O_unsupported [] gas w cc
+  else if precompile E to then mkRes O_unsupported [] gas w cc
   else if (match k with K_CALL => true | _ => false end) && negb (exists_acct w to) && (v =? 0)
   then mkRes O_ok [] gas w cc                                   (* CALL: !Exist && value == 0 -> return *)
   else
@@ -549,7 +568,7 @@ Definition do_create (runf : ctx -> mstate -> fres) (E : env) (self : Z) (static
       | O_ok =>
           let ret := r_data r in
           if 24576 <? zlen ret then mkRes (O_err E_codesize) [] 0 w (r_cc r)
-          else if negb (is_nil ret) && (nthz ret 0 =? 239) then mkRes (O_err E_invalidcode) [] 0 w (r_cc r)    (* 0xEF *)
+          else if (3 <=? e_fork E) && negb (is_nil ret) && (nthz ret 0 =? 239) then mkRes (O_err E_invalidcode) [] 0 w (r_cc r)    (* 0xEF *)
           else if r_gas r <? zlen ret * 200 then mkRes (O_err E_codestore) [] 0 w (r_cc r)
           else mkRes O_ok [] (r_gas r - zlen ret * 200) (set_code (r_world r) addr ret) (r_cc r)
       | O_revert => mkRes O_revert (r_data r) (r_gas r) w (r_cc r)
@@ -591,7 +610,7 @@ Definition exec_create (runf : ctx -> mstate -> fres) (E : env) (cx : ctx) (two 
   end.
 
 Definition step (runf : ctx -> mstate -> fres) (E : env) (cx : ctx) (s : mstate) : sres :=
-  match pre cx s with
+  match pre E cx s with
   | P_halt r => r
   | P_ok (I_CALLI k) s1 cg => exec_call runf E cx k s1 cg
   | P_ok I_CREATE s1 _ => exec_create runf E cx false s1
